@@ -371,6 +371,48 @@ def check_chunks_inside_session(repo, rep):
     check_chunks_partition(repo, rep, rid="C07-R9")
 
 
+def check_partial_before_execution(repo, rep):
+    rid = "C07-R10"
+    rep.rule(rid, "hooks triggered by an execution that the simulator performs itself (matching in both simulators, liquidation) read "
+                  "up-to-date candles of every timeframe: on every control-flow path of _simulate_price_change_effect, "
+                  "_simulate_price_change_effect_multiple_candles and _check_for_liquidations each `order.execute()` is preceded, "
+                  "since the previous execution, by _update_all_routes_a_partial_candle (which rebuilds the routes' candles from the "
+                  "stored 1m candles)")
+    from vlib.traces import Tracer, Cfg, RAISE
+    n = 0
+    for fname in ("_simulate_price_change_effect", "_simulate_price_change_effect_multiple_candles", "_check_for_liquidations"):
+        fn = repo.func(BT, fname)
+
+        def call(label, node):
+            ln = SL.last(label)
+            if ln == "_update_all_routes_a_partial_candle":
+                return ("publish",)
+            if ln == "execute" and isinstance(node.func, ast.Attribute):
+                return ("execute", norm(node.func.value))
+            return None
+        cfg = Cfg(call=call, loop_unroll=2)
+        execs = 0
+        for evs, ex in Tracer(repo, cfg).block(fn.body, (repo.module(BT), None), 0):
+            if ex == RAISE:
+                continue
+            fresh = False
+            for e in evs:
+                if e[0] == "publish":
+                    fresh = True
+                elif e[0] == "execute":
+                    execs += 1
+                    if not fresh:
+                        rep.violation(rid, f"{fname}|execute-without-partial-candles",
+                                      f"{fname}: `{e[1]}.execute()` runs without the routes' candles having been rebuilt from the stored 1m candles "
+                                      f"(_update_all_routes_a_partial_candle) since the previous execution: its hooks read outdated / missing candles of the larger timeframes")
+                    fresh = False
+            n += 1
+        if execs == 0:
+            raise AnalysisError(f"{fname}: no order execution found")
+        rep.instance(rid, fname, {"function": fname, "paths": n})
+    rep.floor(rid, 3)
+
+
 def run(repo: Repo, rep, tier: str):
     rep.exhaustive = True
     rep.assume("sessions start and warm-up lengths are aligned to every route timeframe (stated in the property)")
@@ -383,6 +425,7 @@ def run(repo: Repo, rep, tier: str):
     rep.guarded(check_normalisation_visible, repo, rep)
     rep.guarded(check_chunk_divides_routes, repo, rep)
     rep.guarded(check_chunks_inside_session, repo, rep)
+    rep.guarded(check_partial_before_execution, repo, rep)
     rep.undecided_item("numerical equality of every stored candle at every observation time of a whole run (the per-site formulas and window arithmetic are decided)")
 
 
